@@ -5,7 +5,7 @@ import numpy as np
 from hypothesis import strategies as st
 
 from vf import gen
-from vf.core import Verdict, case_hash, lib, maxdev, mk_basis
+from vf.core import Verdict, case_hash, lib, maxdev, mk_basis, mk_shell
 from vf.ref import r2, r3
 from vf.run import SubCheck
 
@@ -145,8 +145,17 @@ def judge(case):
         v.classes.append(case["extreme"])
     C = np.array(case["coords"], dtype=float).reshape(-1, 3)
     q = np.array(case["charges"], dtype=float)
-    R = r3.refs(shells)
-    bas = mk_basis(shells)
+    if case.get("cart_reversed"):
+        # shells of a subclass that lists its Cartesian components in reverse order (the way from_iodata customises shells);
+        # the oracle lists them the same way
+        from vf.props.c09 import conv_class
+        from vf.ref import r4
+        R = [r3.ShellRef(d, cart=r4.default_cart(d["l"])[::-1]) for d in shells]
+        bas = [mk_shell(d, cls=conv_class(r4.default_cart(d["l"])[::-1], r4.default_sph(d["l"]))) for d in shells]
+        v.classes.append("subclass-cartesian-order")
+    else:
+        R = r3.refs(shells)
+        bas = mk_basis(shells)
     ref = r3.two_index(R, R, lambda a, b: r2.point_charge_block(a, b, C, q))
     dg = np.sqrt(np.abs(np.einsum("aan->an", ref)))
     scale = dg[:, None, :] * dg[None, :, :]
@@ -240,7 +249,8 @@ def corner_cases(shard):
                 sa = {"l": l, "coord": [0.0, 0.0, 0.0], "exps": ea, "coeffs": [[1.0]] * len(ea), "type": "cartesian"}
                 sb = {"l": l, "coord": B, "exps": eb, "coeffs": [[0.7]] * len(eb), "type": "cartesian"}
                 yield {"shells": [sa, sb], "coords": [[0.0, 0.0, 0.0], B, [0.0, 0.3 * r, 0.4 * r]], "charges": [1.0, -2.0, 3.0],
-                       "ccls": ["on-centre", "on-centre", "midpoint"], "ints": False, "extreme": "corner-%s-%s" % (ka, kb)}
+                       "ccls": ["on-centre", "on-centre", "midpoint"], "ints": False, "extreme": "corner-%s-%s" % (ka, kb),
+                       "cart_reversed": kpref == 2.5}
 
 
 def shards_corner(tier):
